@@ -45,6 +45,7 @@ MROne == {1}
 ReqOne == {33310}
 BattRoomy == {[cap |-> 120000, init |-> 30000, pw |-> 6000]}
 OneRecomp == {{}, {1}}
+QuickRecomp == {{}, {1}, {1004}, {2004}}
 MenuQuick == <<
     [kind |-> "ok", len |-> 0, rows |-> <<>>],
     [kind |-> "ok", len |-> 2, rows |-> (1 :> <<32, 8>> @@ 2 :> <<8, 32>>)],
@@ -52,6 +53,9 @@ MenuQuick == <<
     [kind |-> "ragged", len |-> 2, rows |-> (1 :> <<8, 8>> @@ 2 :> <<8, 8>>)] >>
 NoRecomp == {{}}
 SomeRecomp == {{}, {1}, {0, 3}}
+\* extra events with stray Unplug notices (1000*session + period; only those that fit the scenario are enabled, see ExtraOK)
+StrayRecomp == {{}, {1}, {0, 3}, {1003}, {1004}, {2004}, {1005, 1}, {2005}, {1003, 2004}}
+StrayWide == {{}, {1}, {0, 3}, {7, 15}, {19}, {1009}, {2012}, {3010, 5}, {1006, 2007}, {4015}}
 
 ReqSmall == {8320, 50000}
 Req3 == {8320, 33310, 50000}
